@@ -1398,8 +1398,10 @@ func (c *Cluster) pin(
 		return pin, false, errors.New("bad pin object")
 	}
 
-	// Handle pin updates when the option is set
-	if update := pin.PinUpdate; update != cid.Undef && !update.Equals(pin.Cid) {
+	// Handle pin updates when the option is set. A pin which is being
+	// re-allocated away from a blacklisted peer may carry the update
+	// source it was created with: that is not a request to update again.
+	if update := pin.PinUpdate; update != cid.Undef && !update.Equals(pin.Cid) && len(blacklist) == 0 {
 		pin, err := c.PinUpdate(ctx, update, pin.Cid, pin.PinOptions)
 		return pin, true, err
 	}
